@@ -39,7 +39,10 @@ CHECKS = {
 }
 
 
-class PlanTimeout(Exception):
+from .world import ACTIVATION_DIGESTS, HarnessAbort  # noqa: E402
+
+
+class PlanTimeout(HarnessAbort):
     pass
 
 
@@ -105,10 +108,15 @@ def _exec_one(cid, seed, tier, index, plan=None):
     limit = int(getattr(sc, "PLAN_TIMEOUT", 300))
     signal.signal(signal.SIGALRM, _alarm)
     signal.alarm(limit)
+    del ACTIVATION_DIGESTS[:]
     try:
         out = sc.execute(plan)
     finally:
         signal.alarm(0)
+    h = hashlib.sha256()
+    for rd, ed in ACTIVATION_DIGESTS:
+        h.update((rd + "/" + ed + ";").encode())
+    out["digest"] = "%s#%d:%s" % (out.get("digest", ""), len(ACTIVATION_DIGESTS), h.hexdigest()[:24])
     out["index"] = index
     out["plan"] = plan
     return out
@@ -138,6 +146,7 @@ def _worker(args):
             )
         except PlanTimeout:
             res.append({"index": i, "harness_error": "plan timeout"})
+            signal.alarm(0)
         except Exception:  # noqa: BLE001
             res.append({"index": i, "harness_error": traceback.format_exc()})
     faulthandler.cancel_dump_traceback_later()
@@ -170,6 +179,17 @@ def replay_file(path, quiet=False):
         print("VIOLATION property=%s replay=%s" % (cid, path))
         return 1 if same_digest else 3
     return 0
+
+
+def _replay_verdict(pr):
+    """Read the verdict of a fresh-process replay from its REPLAY line (an interpreter that died with
+    an exception also exits 1: the exit status alone proves nothing)."""
+    for ln in pr.stdout.splitlines():
+        if ln.startswith("REPLAY "):
+            if "reproduced=True" in ln:
+                return 1 if "digest_equal=True" in ln else 3
+            return 0
+    return -1
 
 
 # ------------------------------------------------------------------------- main
@@ -297,11 +317,11 @@ def run_check(cid, tier, seed, n_override=None, wall_override=None, workers=None
             except Exception:  # noqa: BLE001
                 small, used = plan, -1
             out = _exec_one(cid, seed, tier, idx, plan=small)
-            wv = [w for w in out.get("violations", []) if w["clause"] == clause]
+            wv = [w for w in out.get("violations", []) if w["clause"] == clause and match_known(known, cid, w, small) is None]
             if not wv:
                 small = plan
                 out = _exec_one(cid, seed, tier, idx, plan=small)
-                wv = [w for w in out.get("violations", []) if w["clause"] == clause]
+                wv = [w for w in out.get("violations", []) if w["clause"] == clause and match_known(known, cid, w, small) is None]
             rep = {
                 "property": cid,
                 "clause": clause,
@@ -329,34 +349,46 @@ def run_check(cid, tier, seed, n_override=None, wall_override=None, workers=None
                     env=os.environ.copy(),
                 )
 
-            pr = fresh_replay()
+            def verdict():
+                try:
+                    return _replay_verdict(fresh_replay())
+                except subprocess.TimeoutExpired:
+                    return -1
+
+            rc_replay = verdict()
             note = ""
-            if pr.returncode != 1:
+            if rc_replay != 1:
                 # the minimisation ran inside this long-lived process: if the violation depends on
                 # what the process executed before, fall back to the unminimised plan, then to the
                 # plan preceded by what its worker had executed (in a fresh process each time)
                 for mode in ("original", "with_history"):
                     rep2 = dict(rep, plan=plan, minimised=False)
+                    # digest and witness of the unminimised plan (as seen in this process)
+                    try:
+                        out_o = _exec_one(cid, seed, tier, idx, plan=plan)
+                        rep2["event_digest"] = out_o.get("digest", "")
+                        wo = [w for w in out_o.get("violations", []) if w["clause"] == clause and match_known(known, cid, w, plan) is None]
+                        rep2["witness"] = wo[0].get("witness") if wo else rep.get("witness")
+                    except Exception:  # noqa: BLE001
+                        pass
                     if mode == "with_history":
                         rep2["prefix_indices"] = prefixes.get(idx, [])
                     with open(path, "w") as fh:
                         fh.write(jdump(rep2))
-                    pr = fresh_replay()
-                    if pr.returncode in (1, 3):
+                    rc_replay = verdict()
+                    if rc_replay in (1, 3):
+                        rep = rep2
                         note = " (unminimised%s; the outcome depends on what ran before in the process)" % (
                             ", replayed after run indices %s" % rep2["prefix_indices"] if mode == "with_history" else ""
                         )
                         break
-            if pr.returncode == 1 or (note and pr.returncode == 3):
+            if rc_replay == 1 or (note and rc_replay == 3):
                 lines.append("VIOLATION property=%s replay=%s" % (cid, path))
                 lines.append("  clause=%s run_index=%d%s witness=%s" % (clause, idx, note, jdump(rep["witness"])[:800]))
                 reported.append({"clause": clause, "replay": path, "run_index": idx})
                 exit_code = 1
             else:
-                harness_errors.append(
-                    "nondeterministic: replay of %s did not reproduce (rc=%d): %s"
-                    % (path, pr.returncode, (pr.stdout + pr.stderr)[-400:])
-                )
+                harness_errors.append("nondeterministic: replay of %s did not reproduce (verdict=%d)" % (path, rc_replay))
 
     wall_s = time.time() - t0
     if harness_errors:
@@ -426,6 +458,17 @@ def run_check(cid, tier, seed, n_override=None, wall_override=None, workers=None
 
 
 def main(argv=None):
+    try:
+        return _main(argv)
+    except SystemExit:
+        raise
+    except BaseException:  # noqa: BLE001
+        traceback.print_exc()
+        print("HARNESS-ERROR uncaught exception in the harness")
+        return 2
+
+
+def _main(argv=None):
     ap = argparse.ArgumentParser(prog="check")
     ap.add_argument("check")
     ap.add_argument("--tier", default=os.environ.get("VERIF_TIER", "quick"), choices=["quick", "thorough"])
